@@ -1,9 +1,86 @@
-"""Design-level model checking (D): TLC on the specification itself, small constants.
-A failure here is a fault of the specification, i.e. machinery (exit 2), never a VIOLATION."""
+"""Design-level model checking (D): TLC on spec/Cobyqa.tla, spec/Filter.tla, ... with small constants.
+
+A failure of the design model is a fault of the specification, i.e. machinery (exit 2), never a
+VIOLATION of the code.  Besides the faithful model, each *named deviation* (the behaviour of the
+tree before a repair, or a plausible mutation of a rule) is checked and MUST be rejected by the
+clause it is meant to exercise: this is the sanity / non-vacuity test of the clauses."""
+import concurrent.futures as cf
+import itertools
 import os
 
-from .common import OUT, Machinery, run_tlc, write_cfg
+from .common import OUT, Machinery, run_tlc, write_cfg, seed, NCPU
+
+BASE = dict(MaxFev=4, MaxIter=2, Npt=3, HasObj=True, NCon=1, HasCb=True, Consistent=True,
+            AllFixed=False, TargetKey=0, FVals="<-FV2", CVals="<-CV2", SamplingBudgetStatus=5,
+            CountInObjective=False, CallbackFirst=False, EscapeAtResult=False)
+
+# deviation -> (constant overrides, clause prefix that must fail)
+DEVIATIONS = {
+    "sampling budget reported as iterations": (dict(SamplingBudgetStatus=6, MaxFev=2), "C07"),
+    "evaluations counted in the objective only": (dict(CountInObjective=True, HasObj=False), "C05"),
+    "callback before the filter update": (dict(CallbackFirst=True), "C20"),
+    "CallbackSuccess escapes from result assembly": (dict(EscapeAtResult=True, Consistent=False), "C08"),
+}
+
+DEV_FOR = {"C07": ["sampling budget reported as iterations"],
+           "C05": ["evaluations counted in the objective only"],
+           "C09": ["evaluations counted in the objective only"],
+           "C20": ["callback before the filter update"],
+           "C08": ["CallbackSuccess escapes from result assembly"]}
+
+
+def _configs(tier):
+    cfgs = []
+    for hasobj, ncon, hascb, tgt, (cons, fixed) in itertools.product(
+            (True, False), (0, 1, 2), (True, False), (0, "<-NeverTarget"),
+            ((True, False), (False, False), (True, True))):
+        for maxfev, npt, maxiter in ((1, 2, 1), (2, 3, 2), (3, 3, 2), (4, 3, 2), (5, 3, 3), (5, 2, 3)):
+            cfgs.append(dict(BASE, HasObj=hasobj, NCon=ncon, HasCb=hascb, TargetKey=tgt, Consistent=cons,
+                             AllFixed=fixed, MaxFev=maxfev, Npt=npt, MaxIter=maxiter,
+                             FVals="<-FV3" if maxfev <= 3 else "<-FV2",
+                             CVals="<-CV3" if maxfev <= 2 else "<-CV2"))
+    if tier == "thorough":
+        return cfgs
+    # quick: a fixed spread plus a seed-dependent few
+    import random
+    rnd = random.Random(seed())
+    pick = [c for c in cfgs if c["MaxFev"] == 4 and c["Consistent"] and not c["AllFixed"]][:6]
+    pick += [c for c in cfgs if (not c["Consistent"] or c["AllFixed"]) and c["MaxFev"] == 2][:4]
+    pick += rnd.sample(cfgs, 6)
+    return pick
+
+
+def _run(i, consts, invariants, properties, workers, tag):
+    cfg = write_cfg(os.path.join(OUT, f"design-{tag}-{i}.cfg"), spec="Spec", constants=consts,
+                    invariants=invariants, properties=properties)
+    r = run_tlc("MCCobyqa", cfg, workers=workers, tag=f"design-{tag}-{i}", timeout=1800)
+    os.remove(cfg)
+    return r
 
 
 def check(pid, tier):
-    return {}
+    """Model check the life-cycle design for property pid. Returns coverage dict."""
+    inv = [f"D_{pid}", "Budget"] if pid in ("C01", "C02", "C03", "C05", "C06", "C07", "C08", "C09", "C20") else ["NoViolation"]
+    props = ["Terminates"] if pid == "C08" else []
+    cfgs = _configs(tier)
+    tag = f"{pid}-{os.getpid()}"
+    states = trans = 0
+    with cf.ThreadPoolExecutor(max_workers=max(1, NCPU // 2)) as ex:
+        futs = [ex.submit(_run, i, c, inv, props, 2, tag) for i, c in enumerate(cfgs)]
+        for f, c in zip(futs, cfgs):
+            r = f.result()
+            if r["violated"]:
+                raise Machinery(f"design model violates {r['violated']} with constants {c}:\n"
+                                + r["out"][r["out"].find("Error:"):][:3000])
+            states += r["distinct"]
+            trans += r["generated"]
+    rejected = []
+    for name in DEV_FOR.get(pid, []):
+        over, clause = DEVIATIONS[name]
+        r = _run(900, dict(BASE, **over), [f"D_{clause}"], [], 4, tag)
+        if not r["violated"]:
+            raise Machinery(f"named deviation '{name}' is NOT rejected by clause {clause}: the clause is vacuous")
+        rejected.append(name)
+    return {"states": states, "transitions": trans, "configurations": len(cfgs),
+            "invariants": inv + props, "deviations_rejected": rejected,
+            "sample_constants": {k: v for k, v in cfgs[0].items()}}
